@@ -98,3 +98,21 @@ Qed.
 Theorem leaf_is_kernel : forall f s k,
   src_wf s = true -> conv false false (S f) (JNum s) (TNum k) = gv_of_outcome (convertNumeric s k).
 Proof. intros f s k H. cbn [conv]. now rewrite H. Qed.
+
+(* whatever runs while its arguments are converted, a call reaches Go last in
+   its own log segment and with exactly its own argument values *)
+Theorem reentrant_args_intact : forall f fn args,
+  exists before, ev_call (S f) (RCall fn args) = before ++ [(fn, map rarg_val args)].
+Proof. intros. cbn [ev_call]. eexists. reflexivity. Qed.
+
+(* calls made from inside the conversion of an argument are logged, completely, before the outer one *)
+Theorem reentrant_inner_first : forall f fn pre inner v post,
+  exists a b, ev_call (S f) (RCall fn (pre ++ RRe inner v :: post)) =
+              a ++ flat_map (ev_call f) inner ++ b ++ [(fn, map rarg_val (pre ++ RRe inner v :: post))].
+Proof.
+  intros. cbn [ev_call].
+  set (g := fun a : rarg => match a with RVal _ => [] | RRe inner0 _ => flat_map (ev_call f) inner0 end).
+  exists (flat_map g pre), (flat_map g post).
+  rewrite flat_map_app. cbn [flat_map]. unfold g at 2.
+  rewrite <- app_assoc. f_equal. rewrite <- app_assoc. reflexivity.
+Qed.
